@@ -24,7 +24,7 @@ def main():
     meta_p = os.path.join(d, "meta.json")
     meta = json.load(open(meta_p)) if os.path.exists(meta_p) else {}
     props = args[1:] or [meta.get("property")]
-    wt = "/tmp/wt-seed-" + name
+    wt = "/tmp/wt-seed-%s-%d" % (name, os.getpid())
     subprocess.run(["git", "-C", "/repo", "worktree", "remove", "--force", wt], capture_output=True)
     subprocess.run(["git", "-C", "/repo", "worktree", "add", "--detach", wt, "HEAD"], check=True, capture_output=True)
     res = {}
